@@ -4,6 +4,7 @@ package asm
 // values against an independent transcription of LLVM's numbering rule.
 
 import (
+	"regexp"
 	"fmt"
 	"math/rand"
 	"os"
@@ -132,7 +133,13 @@ func verifC08Func(m *ir.Module, name string, shape string, voidFn, intFn *ir.Fun
 	return f, order
 }
 
-func TestVerifC08(t *testing.T) {
+func TestVerifC08(t *testing.T) { verifC08(t, false) }
+
+// TestVerifC08Constructed: the constructed-IR part only (shared with C03): numbering of constructed functions
+// and modules against LLVM's rule; the texts the printer never emits belong to C08 alone.
+func TestVerifC08Constructed(t *testing.T) { verifC08(t, true) }
+
+func verifC08(t *testing.T, constructedOnly bool) {
 	bound, _ := strconv.Atoi(os.Getenv("VERIF_BOUND"))
 	if bound <= 0 {
 		bound = 600
@@ -204,6 +211,62 @@ func TestVerifC08(t *testing.T) {
 				fmt.Printf("REPLAY-SAMPLE shape %s: %d unnamed values numbered\n", shape, len(order))
 			}
 		}()
+	}
+	// module level: unnamed globals, aliases, ifuncs and functions of constructed modules must be numbered in
+	// the order in which the printer emits their definitions (LLVM numbers @N textually)
+	defRe := regexp.MustCompile(`(?m)^(?:@([0-9]+) = |(?:define|declare) [^@\n]*@([0-9]+)\()`)
+	for h := 0; h < 80; h++ {
+		cases++
+		func() {
+			defer func() {
+				if e := recover(); e != nil {
+					fail("module shape #%d: panic: %v", h, strings.Split(fmt.Sprint(e), "\n")[0])
+				}
+			}()
+			m := ir.NewModule()
+			nm := func(p string, k int) string {
+				if r.Intn(3) == 0 {
+					return fmt.Sprintf("%s%d", p, k)
+				}
+				return ""
+			}
+			var gs []*ir.Global
+			for k := 1 + r.Intn(3); k > 0; k-- {
+				gs = append(gs, m.NewGlobalDef(nm("g", k), constant.NewInt(types.I32, int64(k))))
+			}
+			var fs []*ir.Func
+			for k := 1 + r.Intn(3); k > 0; k-- {
+				f := m.NewFunc(nm("f", k), types.Void)
+				f.NewBlock("").NewRet(nil)
+				fs = append(fs, f)
+			}
+			for k := r.Intn(3); k > 0; k-- {
+				m.NewAlias(nm("a", k), gs[r.Intn(len(gs))])
+			}
+			for k := r.Intn(3); k > 0; k-- {
+				m.NewIFunc(nm("i", k), fs[r.Intn(len(fs))])
+			}
+			text := m.String()
+			next := 0
+			for _, mm := range defRe.FindAllStringSubmatch(text, -1) {
+				num := mm[1] + mm[2]
+				if num != strconv.Itoa(next) {
+					fail("module shape #%d: the %d-th unnamed global entity in printed order is numbered @%s, LLVM numbers it @%d:\n%s", h, next, num, next, text)
+					return
+				}
+				next++
+			}
+			if _, err := ParseString("c08m.ll", text); err != nil {
+				fail("module shape #%d: printed module rejected by the parser: %v", h, err)
+			}
+		}()
+	}
+	if constructedOnly {
+		fmt.Printf("REPLAY-CASES %d\n", cases)
+		if fails > 0 {
+			t.Fatalf("%d failures", fails)
+		}
+		return
 	}
 	// hand-written texts: spellings the printer never emits
 	texts := []struct{ name, src string }{
